@@ -606,6 +606,12 @@ func (e *CEnv) evalCall(n *CCall) (CV, error) {
 			return CV{}, err
 		}
 		return CV{T: Store(args[0].T, args[1].T, args[2].T)}, nil
+	case "lockstate":
+		args, err := evalArgs()
+		if err != nil {
+			return CV{}, err
+		}
+		return CV{T: Select(w.heapGet(e.heap(), "LockState", ArraySort(SRef, SInt)), args[0].T)}, nil
 	case "locked", "rlocked", "unlocked":
 		args, err := evalArgs()
 		if err != nil {
@@ -662,6 +668,12 @@ func (e *CEnv) evalCall(n *CCall) (CV, error) {
 			return CV{}, cerr("fresh() of non-reference")
 		}
 		return CV{T: Gt(App(SInt, "born", r), IntLit(int64(e.freshAfter)))}, nil
+	case "sends": // sends(ch): number of send attempts made on channel ch so far (ghost)
+		args, err := evalArgs()
+		if err != nil {
+			return CV{}, err
+		}
+		return CV{T: Select(w.heapGet(e.heap(), "ChanSends", ArraySort(SRef, SInt)), args[0].T)}, nil
 	case "chancap":
 		args, err := evalArgs()
 		if err != nil {
